@@ -290,13 +290,14 @@ package analysis
 //@ end
 
 // ---- C05: a for loop's control variables are visible in its body only ----
-// every control variable records the range of the loop body (IsCorrectPosition confines its visibility to that range)
+// every control variable records the range of the loop body (IsCorrectPosition confines its visibility to that range;
+// completion asks the same predicate, so the clause also carries C14 - seed C14m)
 //@ func (*Analysis).cgForNumStat
-//@   props C05 C06 C11
+//@   props C05 C06 C11 C14
 //@   at call cgBlock#0 before assert[control-variable-is-confined-to-the-loop-body] locVar.ForBodyLoc == node.Block.Loc
 //@ end
 //@ func (*Analysis).cgForInStat
-//@   props C05 C06 C11
+//@   props C05 C06 C11 C14
 //@   loop range:node.NameList step [control-variable-is-confined-to-the-loop-body] locVar.ForBodyLoc == node.Block.Loc
 //@ end
 
@@ -312,6 +313,7 @@ package analysis
 //@ func isFloatLiteral
 //@   props C20
 //@   functional
+//@   assigns nothing
 //@   ensures[float-literal-possibly-signed-or-parenthesised] result <==> (typeis(exp, "*ast.FloatExp")
 //@        || (typeis(exp, "*ast.ParensExp") && isFloatLiteral(as(exp, "*ast.ParensExp").Exp))
 //@        || (typeis(exp, "*ast.UnopExp") && as(exp, "*ast.UnopExp").Op == lexer.TkOpUnm && isFloatLiteral(as(exp, "*ast.UnopExp").Exp)))
